@@ -141,7 +141,7 @@ pub fn run(cx: &Ctx) {
     let w = cx.workers;
     cx.label("fixed");
     cx.run_list(&SampleStats, fixed(), "the F3/F4 reproducers 1,2,3,4,5,1 (prefixes, negated, offset)");
-    let cases = cx.by(500, 8000);
+    let cases = cx.by(3000, 30000);
     let small = || proptest::collection::vec(0.0..1.0f64, 0..7).prop_flat_map(|raw| gen::placement(9.0).prop_map(move |pl| Xs { xs: gen::build_dataset(&raw, &pl) }));
     cx.label("generated-small-n");
     cx.run_pt(&SampleStats, cases, w, small, "n 0..=6 (threshold table region)");
